@@ -1,6 +1,6 @@
 #!/bin/bash
 # tools/confirm_mutant.sh <name> (e.g. C01_1): confirm a sub-agent's mutant in a fresh scratch worktree and keep it under seeded/<name>/
-N="$1"; OUT=/tmp/wt/out; W=/tmp/wt/confirm_$N
+N="$1"; OUT=${MUT_OUT:-/tmp/wt/out}; W=/tmp/wt/confirm_$N
 [ -f $OUT/$N.patch ] || { echo "no patch $N"; exit 2; }
 git -C /repo worktree add -q --detach $W HEAD || exit 2
 cd $W
@@ -13,17 +13,17 @@ cd /; git -C /repo worktree remove --force $W
 echo "$N: tests='$T' demo_mutant_exit=$DM demo_clean_exit=$DC"
 case "$T" in *"91 passed"*) ;; *) echo "$N REJECTED (tests)"; exit 1;; esac
 [ $DM -eq 1 ] && [ $DC -eq 0 ] || { echo "$N REJECTED (demo)"; exit 1; }
-D=/verif/seeded/$N; mkdir -p $D
+D=/verif/seeded/${PREFIX}$N; mkdir -p $D
 cp $OUT/$N.patch $D/patch.diff; cp $OUT/${N}_demo.py $D/demo.py
 python3 - "$N" "$T" <<'PY'
 import json, sys
 n, t = sys.argv[1:3]
-try: src = json.load(open("/tmp/wt/out/%s.json" % n))
+try: src = json.load(open(__import__("os").environ.get("MUT_OUT", "/tmp/wt/out") + "/%s.json" % n))
 except Exception: src = {}
-meta = {"property": n.split("_")[0], "breaks": src.get("summary", ""), "needs": src.get("needs", ""),
+meta = {"property": [x for x in (__import__("os").environ.get("PREFIX", "") + n).split("_") if x.startswith("C")][0], "breaks": src.get("summary", ""), "needs": src.get("needs", ""),
         "confirmed": {"worktree": "fresh scratch worktree of /repo HEAD (removed afterwards)", "tests": t, "demo_with_patch_exit": 1, "demo_clean_exit": 0,
                       "ran": ["git apply patch.diff", "PYTHONPATH=<wt>/src /venv/bin/python -m pytest -q -p no:cacheprovider tests", "python demo.py (with patch)", "git checkout -- . ; python demo.py (clean)"]},
         "origin": "fresh sub-agent given only the property text and its own worktree"}
-json.dump(meta, open("/verif/seeded/%s/meta.json" % n, "w"), indent=1)
+json.dump(meta, open("/verif/seeded/%s%s/meta.json" % (__import__("os").environ.get("PREFIX", ""), n), "w"), indent=1)
 PY
 echo "$N KEPT"
